@@ -948,7 +948,7 @@ def desc_refinement_violations(built, v, t=None, path="$", siblings=None, out=No
             # a refinement stacked on an already refined type (Annotated[Annotated[T, A], B]) is named as such: python
             # flattens the two annotations into one
             out.append((path, t[2][0] + ("/stacked-on-a-refined-type" if t[1][0] == "ann" else ""), r))
-        desc_refinement_violations(built, v, t[1], path, None, out, depth + 1)
+        desc_refinement_violations(built, v, t[1], path, siblings, out, depth + 1)
     elif k == "dep":
         names = t[2].split(",")
         vals = [(siblings or {}).get(n, _MISSING) for n in names]
@@ -965,16 +965,16 @@ def desc_refinement_violations(built, v, t=None, path="$", siblings=None, out=No
     elif k == "list":
         if isinstance(v, list):
             for i, x in enumerate(v):
-                desc_refinement_violations(built, x, t[1], f"{path}[{i}]", None, out, depth + 1)
+                desc_refinement_violations(built, x, t[1], f"{path}[{i}]", siblings, out, depth + 1)  # a dependent element sees the FIELD's siblings
     elif k == "tuple":
         if type(v) is tuple and len(v) == len(t) - 1:
             for i, (x, tt) in enumerate(zip(v, t[1:])):
-                desc_refinement_violations(built, x, tt, f"{path}.{i}", None, out, depth + 1)
+                desc_refinement_violations(built, x, tt, f"{path}.{i}", siblings, out, depth + 1)
     elif k == "union":
         subs = []
         for tt in t[1:]:
             if _desc_shape_ok(built, x=v, t=tt):
-                subs.append(desc_refinement_violations(built, v, tt, path, None, [], depth + 1))
+                subs.append(desc_refinement_violations(built, v, tt, path, siblings, [], depth + 1))
         if subs and all(subs):
             out.extend(min(subs, key=len))
     elif k == "ref":
